@@ -594,7 +594,7 @@ def files(draw, prof):
       if begins and draw(st.integers(0, 9)) == 0:
         clock = max(base, clock - draw(st.integers(1, 2 * n)))   # overlaps the previous subtitle
       t_in = advance(gap, gap)
-      t_out = advance(*draw(st.sampled_from([(0, 0), (1, 1), (1, 4 * n), (1, 4 * n), (n, 8 * n)])))
+      t_out = advance(*draw(st.sampled_from([(0, 0), (1, 1), (1, 4 * n), (1, 4 * n), (1, 4 * n), (n, 8 * n), (n, 8 * n), (2, 2 * n)])))
       mem["tci"], mem["tco"] = tc_label(dfc, t_in), tc_label(dfc, t_out)
       if kind == "sub":
         begins.append(t_in)
@@ -817,3 +817,19 @@ def selftest():
   assert expected(d)["groups"][0][1][0]["members"][0]["begin"] == 1 + Fraction(2, 25)
   d["config"]["program_start_tc"] = "10:00:02:00"
   assert expected(d)["groups"] == []
+  # byte-exact reproduction of the TTI blocks of a file bundled with the repository (layout calibration)
+  import os
+  path = os.path.join(os.environ.get("VT_REPO", "/repo"), "src/test/resources/stl/sandflow/cumulative_set.stl")
+  if os.path.exists(path):
+    with open(path, "rb") as f:
+      ref = f.read()
+    def mem(sn, tci, tco, vp, text):
+      return {"sn": sn, "tci": tci, "tco": tco, "vp": vp, "jc": 2, "dh": False, "lines": [[0x0D, 0x0B, 0x0B] + list(text) + [0x0A]],
+              "cuts": [], "trail_nl": False, "ud": False, "junk": None}
+    c = {"gsi": dict(GSI_DEFAULT), "config": dict(CONFIG_DEFAULT), "entries": [
+      {"k": "sub", "sgn": 1, "members": [mem(1, [0, 0, 0, 1], [0, 0, 1, 0], 22, b"Not part of cumulative set.")]},
+      {"k": "cum", "sgn": 1, "members": [mem(2, [0, 0, 2, 0], [0, 0, 7, 0], 1, b"1 "), mem(3, [0, 0, 3, 0], [0, 0, 7, 0], 3, b"2 "),
+                                         mem(4, [0, 0, 4, 0], [0, 0, 7, 0], 5, b"3 "), mem(5, [0, 0, 5, 0], [0, 0, 7, 0], 7, b"4 ")]}]}
+    mine = assemble(c)
+    assert mine[1024:] == ref[1024:], "TTI layout differs from the bundled cumulative_set.stl"
+    assert mine[0:16] == ref[0:16] and mine[253:264] == ref[253:264]
